@@ -8,7 +8,7 @@ mut="$1"; prop="$2"; tier="${3:-quick}"
 scratch=$(mktemp -d /tmp/mc_XXXXXX)
 trap 'rm -rf "$scratch"' EXIT
 cp -r /repo/src /repo/tests /repo/pyproject.toml "$scratch"/
-( cd "$scratch" && git init -q . 2>/dev/null && git apply "$mut/patch.diff" ) || { echo "PATCH DOES NOT APPLY"; exit 3; }
+( cd "$scratch" && git init -q . 2>/dev/null && { git apply "$mut/patch.diff" 2>/dev/null || git apply -C1 "$mut/patch.diff" 2>/dev/null || patch -s -p1 -F3 < "$mut/patch.diff"; } ) || { echo "PATCH DOES NOT APPLY"; exit 3; }
 if [ "${4:-}" != "--notests" ]; then
   t=$(cd "$scratch" && PYTHONPATH="$scratch/src" /venv/bin/python -m pytest -q -p no:cacheprovider --timeout=900 2>&1 | tail -1)
   echo "tests(with patch): $t"
